@@ -211,6 +211,23 @@ func FreeDigest() string {
 	return fmt.Sprintf("%d:%016x", len(keys), h)
 }
 
+// HasDuplicates reports whether some pool currently holds the same object twice (two later borrowers
+// would then share it). Used to steer the search, never as an oracle.
+//
+//go:norace
+func HasDuplicates() bool {
+	for _, p := range allPools {
+		for i, e := range p.free {
+			for j := 0; j < i; j++ {
+				if p.free[j].obj == e.obj {
+					return true
+				}
+			}
+		}
+	}
+	return false
+}
+
 // FreeCounts returns, per pool name, the number of free entries and the number of distinct objects.
 //
 //go:norace
